@@ -820,6 +820,9 @@ func (m *RedisMessage) AsInt64() (val int64, err error) {
 // AsUint64 check if the message is a redis string response and parse it as uint64
 func (m *RedisMessage) AsUint64() (val uint64, err error) {
 	if m.IsInt64() {
+		if m.intlen < 0 { // same answer as for the string "-1": not an unsigned integer
+			return 0, &strconv.NumError{Func: "ParseUint", Num: strconv.FormatInt(m.intlen, 10), Err: strconv.ErrSyntax}
+		}
 		return uint64(m.intlen), nil
 	}
 	v, err := m.ToString()
